@@ -255,6 +255,7 @@ class C16(CheckBase):
 
     # -- execution ---------------------------------------------------------------
     def run(self, case: dict) -> dict:
+        self.quiesce()
         log = EventLog()
         world = World(log, plan={}, tag="c16")
         world.activate()
